@@ -97,3 +97,20 @@ Fixpoint insert_by_weight (w : list Z) (e : nat) (l : list nat) : list nat :=
   end.
 Definition stable_scan (w : list Z) (m : nat) : list nat :=
   fold_right (insert_by_weight w) [] (seq 0 m).
+
+(* the scan order recovered from what the implementation retained and dropped (formerly recover_scan of
+   tools/props/c15.py, now executed here: kind M of the model driver takes RET and DROP as observed and merges
+   them itself): weight-sorted merge of the retained and the dropped sequence, retained first on ties
+     while i < len(ret) or j < len(drop):
+       if j >= len(drop) or (i < len(ret) and w[ret[i]] <= w[drop[j]]): take ret[i]  else: take drop[j]
+   SpannerScanProofs.v proves that this order reproduces (ret, drop) whenever any weight-sorted order does. *)
+Fixpoint merge_scan (w : list Z) (r : list nat) : list nat -> list nat :=
+  match r with
+  | [] => fun d => d
+  | a :: r' =>
+      fix aux (d : list nat) : list nat :=
+        match d with
+        | [] => a :: r'
+        | b :: d' => if Z.leb (nth a w 0%Z) (nth b w 0%Z) then a :: merge_scan w r' d else b :: aux d'
+        end
+  end.
